@@ -286,6 +286,11 @@ class Documentable:
         self.name = new_name
         del old_parent.contents[old_name]
         old_parent._localNameToFullName_map[old_name] = self.fullName()
+        resident = self.system.allobjects.get(self.fullName())
+        if resident is not None and resident is not self:
+            # The name is already in use in the new parent: like for a redefinition, the object 
+            # that arrives takes the name over and the previous one is kept as a superseded definition.
+            self.system.handleDuplicate(self)
         new_parent.contents[new_name] = self
         for o in subtree:
             self.system.allobjects[o.fullName()] = o
